@@ -61,4 +61,5 @@ def build(ub, algebra_text):
     ub.emit_fn(META, "index_to_word_and_bit", "verify", cfg=bits)
     for f in ("contains", "insert", "remove"):
         ub.emit_fn(META, f, "verify", impl="impl ExprSet for DenseExprSet", spec_key=f"DenseExprSet::{f}", cfg=dict(bits, compound_index_assign=True))
+    ub.pin_rest_of_file(META)   # frame: the other functions of the file (DESIGN 11.12)
     ub.out("} // verus!\nfn main() {}\n")
